@@ -129,6 +129,10 @@ TYPE_CHANGE_OPS = {"to_symlink", "to_file", "to_dir"}
 TREE_EDITS = ["content", "content", "mode", "mode", "retype", "retype", "to_dir", "to_dir", "to_file", "to_file", "delete", "add", "add",
               "retarget"]
 INITS = ["reset_index", "checkout", "reset_hard", "clone"]
+# configuration that must not change any answer (git honours both the same way); spelled as a suffix of the init kind so that
+# cases, replays and the minimiser carry it along unchanged
+INIT_OPTS = ["", "", "", "+notrustctime", "+notrustctime", "+preload", "+notrustctime+preload"]
+_OPT_CONFIG = {"notrustctime": ("core.trustctime", "false"), "preload": ("core.preloadIndex", "true")}
 KIND_MODE = {"f": REG, "x": EXE, "l": LNK}
 MODE_KIND = {REG: "f", EXE: "x", LNK: "l"}
 
@@ -293,7 +297,7 @@ def _scenarios(maxops):
             else:
                 edits = draw(st.lists(st.tuples(st.sampled_from(TREE_EDITS), sel, sel, sel), min_size=1, max_size=4))
                 trees.append(_derive_tree(trees[draw(st.integers(0, len(trees) - 1))], universe, names, edits))
-        init = draw(st.sampled_from(INITS))
+        init = draw(st.sampled_from(INITS)) + draw(st.sampled_from(INIT_OPTS))
         aops = draw(st.lists(st.tuples(st.sampled_from(OPS_WEIGHTED), sel, sel, sel), min_size=2, max_size=maxops))
         return dict(flavour=flavour, names=names, universe=universe, trees=trees, init=init, aops=aops)
 
@@ -486,7 +490,7 @@ class Runner:
         from dulwich import porcelain
         from dulwich.repo import Repo
 
-        init = self.init
+        init, *opts = self.init.split("+")
         if init == "clone":
             src = os.path.join(self.base, "src")
             cgit.init(src, bare=True, branch="brE")
@@ -507,6 +511,11 @@ class Runner:
             cfg = f.read().lower()
         if "filemode = true" not in cfg or "symlinks = false" in cfg or "autocrlf" in cfg or "ignorecase" in cfg:
             raise HarnessError(f"unexpected repository configuration: {cfg!r}")
+        for o in opts:
+            cgit.git(["config", *_OPT_CONFIG[o]], cwd=self.d)
+        if opts and self.repo is not None:  # cloned before the option was set: the handle has read its configuration already
+            self.repo.close()
+            self.repo = Repo(self.d)
         self.ops.append(("init", init))
         try:
             if init == "reset_index":
@@ -1405,8 +1414,10 @@ def minimise(ctx, bucket, case, message, budget=40):
             trees = [list(t) for t in best["trees"]]
             trees[ti] = list(trees[0])
             attempt(dict(best, trees=trees))
-    if best["init"] != "reset_index":
-        attempt(dict(best, init="reset_index"))
+    if "+" in best["init"]:
+        attempt(dict(best, init=best["init"].split("+")[0]))
+    if best["init"].split("+")[0] != "reset_index":
+        attempt(dict(best, init="reset_index" + best["init"][len(best["init"].split("+")[0]):]))
     _min_cache[bucket] = (best, best_msg)
     return best, best_msg
 
